@@ -123,6 +123,20 @@ def generate(g, tier):
         if infunc and stopped != 'ret': exp.append('STRING fell-through')
         exp.append('STRING after')
         cases.append(dict(op='compile', timeout=60, src=dict(text='\n'.join(lines)), meta=dict(family='signal-schedule', expout=exp)))
+    # the variables a loop condition reads may be changed by an IMPORTED file run in the body (START / STARTENV inside the body, in an IF
+    # inside it, in a function called from it) while the body itself assigns nothing: the next evaluation still sees the change
+    for _ in range(count(tier, 40, 300)):
+        kw = r.choice(['START', 'STARTENV'])
+        n = r.randint(2, 5)
+        shape = r.choice(['while', 'while-if', 'while-func', 'repeat-read', 'while-counter'])
+        bump = 'VAR n n+1' + ('\nSTRING bumped' if kw == 'START' else '')
+        per = ['STRING bumped'] if kw == 'START' else []
+        if shape == 'while': main, out = f'VAR n 0\nWHILE n < {n}\n    {kw} bump\n$STRING n', per * n + [f'STRING {n}']
+        elif shape == 'while-if': main, out = f'VAR n 0\nWHILE n < {n}\n    IF TRUE\n        {kw} bump\n$STRING n', per * n + [f'STRING {n}']
+        elif shape == 'while-func': main, out = f'VAR n 0\nFUNC step\n    {kw} bump\nWHILE n < {n}\n    RUN step\n$STRING n', per * n + [f'STRING {n}']
+        elif shape == 'while-counter': main, out = f'VAR n 0\nWHILE c,n < {n}\n    {kw} bump\n    $STRING c\n$STRING n', sum([per + [f'STRING {i}'] for i in range(n)], []) + [f'STRING {n}']
+        else: main, out = f'VAR n 0\nREPEAT {n}\n    {kw} bump\n    $STRING n', sum([per + [f'STRING {i + 1}'] for i in range(n)], [])
+        cases.append(dict(op='compile_file', file='proj/main.txt', files={'proj/main.txt': main, 'proj/bump.txt': bump}, meta=dict(family='import-changes-loop-state', expout=out)))
     return cases
 
 
